@@ -23,9 +23,13 @@ ASSUMPTIONS = [
     "names are non-empty UTF-8 text without CR/LF/NUL",
 ]
 FLOORS = {"quick": {"getscript-cases": 20000, "listscripts-cases": 20000,
-                    "served-quoted": 15000, "served-literal": 20000},
+                    "served-quoted": 15000, "served-literal": 20000,
+                    "getscript-cases-segmented-with-debug": 10000,
+                    "listscripts-cases-segmented-with-debug": 10000},
           "thorough": {"getscript-cases": 150000, "listscripts-cases": 150000,
-                       "served-quoted": 100000, "served-literal": 150000}}
+                       "served-quoted": 100000, "served-literal": 150000,
+                       "getscript-cases-segmented-with-debug": 80000,
+                       "listscripts-cases-segmented-with-debug": 80000}}
 SHARD_TIMEOUT = {"quick": 600, "thorough": 3000}
 
 LINES = [b"keep;", b"OK", b'OK "done"', b'NO "x"', b"NO", b"BYE", b"{5}", b"{5+}", b"{0}",
@@ -105,14 +109,36 @@ def run_bodies(shard, res: Result):
                                (out[1] if out[0] == "exc" else "hang")},
                               {"stored": body, "encoding": how, "returned": repr(out)[:300],
                                "wire": sess.wire.recv_since(0)[-200:]})
+            if ok:
+                # same stored data, other delivery and the client's trace switch on: random
+                # recv() segmentation (cuts fall inside multi-byte characters too) with
+                # Client(debug=True)
+                srv2 = ms.Server(users={b"user": b"pw"}, scripts={b"s": body},
+                                 encodings="quoted")
+                srv2.how_script = lambda how=how: how
+                sess2, r2 = mslab.authed_session(
+                    srv2, ms.Seg(rng=random.Random(rng.randrange(1 << 30))), debug=True)
+                out2 = sess2.call("getscript", "s")
+                res.count("getscript-cases-segmented-with-debug")
+                ok2 = out2[0] == "ret" and isinstance(out2[1], str) and \
+                    norm_lines(out2[1]) == want
+                res.monitor("getscript-transparency", not ok2)
+                if not ok2:
+                    res.violation({"op": "getscript", "encoding": how,
+                                   "cause": "delivery-or-debug-switch",
+                                   "outcome": "differs" if out2[0] == "ret" else
+                                   (out2[1] if out2[0] == "exc" else "hang")},
+                                  {"stored": body, "encoding": how,
+                                   "returned": repr(out2)[:300], "client_debug": True,
+                                   "delivery": "random segmentation"})
             if i % 301 == 0:
                 res.sample({"op": "getscript", "stored": body, "encoding": how}, 2)
 
 
-def list_once(names, active, how):
+def list_once(names, active, how, seg=None, debug=None):
     srv = ms.Server(users={b"user": b"pw"}, scripts={n: b"keep;\r\n" for n in names},
                     active=active, encodings=how)
-    sess, r = mslab.authed_session(srv)
+    sess, r = mslab.authed_session(srv, seg, debug=debug)
     out = sess.call("listscripts")
     want_active = active.decode("utf-8") if active else None
     want_others = [n.decode("utf-8") for n in names if n != active]
@@ -155,6 +181,19 @@ def run_names(shard, res: Result):
                               {"stored": names, "active": active, "encoding": how,
                                "returned": repr(out)[:300],
                                "wire": sess.wire.recv_since(0)[-300:]})
+            if ok:
+                ok2, out2, sess2 = list_once(
+                    names, active, how, ms.Seg(rng=random.Random(rng.randrange(1 << 30))), True)
+                res.count("listscripts-cases-segmented-with-debug")
+                res.monitor("listscripts-transparency", not ok2)
+                if not ok2:
+                    res.violation({"op": "listscripts", "encoding": how,
+                                   "cause": "delivery-or-debug-switch",
+                                   "outcome": "differs" if out2[0] == "ret" else
+                                   (out2[1] if out2[0] == "exc" else "hang")},
+                                  {"stored": names, "active": active, "encoding": how,
+                                   "returned": repr(out2)[:300], "client_debug": True,
+                                   "delivery": "random segmentation"})
             if i % 301 == 0:
                 res.sample({"op": "listscripts", "names": names, "active": active,
                             "encoding": how}, 2)
